@@ -27,6 +27,7 @@ import PoetryVerif.Proofs.MarkerAlgSoundFullC
 import PoetryVerif.Proofs.MarkerAlgSoundPrC
 import PoetryVerif.Proofs.MarkerAlgSoundFull4
 import PoetryVerif.Proofs.MarkerAlgSoundFullL
+import PoetryVerif.Proofs.MarkerAlgSoundListCtor
 import PoetryVerif.Proofs.PyConvPairFinal
 import PoetryVerif.Proofs.PyConvPairCompat
 import PoetryVerif.Proofs.MarkerPrint
@@ -791,10 +792,7 @@ theorem python_version_list_built (isIn : Bool) (p0 : Nat × Nat) (rest : List (
 
 /-- **Intersection and union with `python_version` lists, no unproved hypothesis**, on markers without
 `python_full_version` leaves: string leaves with the four operators, `extra`, `python_version` with the seven
-operators and lists, `platform_release`.  (With `python_full_version` leaves the list leaves need the pairing
-`PairSound (leafEval E) PvLeafL Pfv3LeafC` — `leafSpec_pyL`; not proved: the constructor on the printed text of a
-general union of ranges is not covered by the text lemmas.  No counterexample is known; the real code passes the
-exhaustive replay of the 26 × 30 leaf pairs of the neighbourhood.) -/
+operators and lists, `platform_release`.  (With `python_full_version` leaves: `intersect_union_sound_lists_pfv`.) -/
 theorem intersect_union_sound_lists {C : String → Prop}
     (hC : ∀ u v, C u → C v → Generic.strIn u v = true ∨ Generic.strIn v u = true)
     {B : List Version} (hpb : ∀ e ∈ B, PyBound e = true)
@@ -808,6 +806,37 @@ theorem intersect_union_sound_lists {C : String → Prop}
       M.Good (FullLeafL C B E) r ∧ M.validate E r = .ok (holds E a || holds E b)) := by
   have S := leafSpec_fullL hC hpb hX hE hP
   have hev : ∀ l, FullLeafL C B E l → ∃ b, l.validate E = .ok b := fun l hl => fullLeafL_evaluable hpb hX hE hP hl
+  exact ⟨fun h => by have := intersect_sound_partial S hev ha hb h; exact ⟨this.1, this.2.2⟩,
+    fun h => by have := union_sound_partial S hev ha hb h; exact ⟨this.1, this.2.2⟩⟩
+
+/-- **The pairing of `python_version` list leaves with `python_full_version` leaves, no hypothesis.**  The new
+ingredient is the constructor on the conversion of a list: `SingleMarker("python_full_version", str(c))` for a
+constraint `c` of the regular setting over two-component Python bounds (in general a union of ranges) is a leaf of
+the regular fragment that means `c` (`mkListOK`).  Final-release bounds are never spelt with a wildcard, so
+`str(c)` is the plain `||` join of the members; the C15 builder's text lemmas are generic in the parser mode, so the
+round trip holds through `parse_marker_version_constraint`; the constraint pattern takes the first operator and
+leaves the rest of the text (blanks, bars, commas) as the value, which is not padded.  A merged list marker is
+returned as merged (repo fix d9aa4ee), a merged comparison marker is rewritten and re-parsed as before. -/
+theorem pairing_with_lists {X Y Z : Nat} (hE : EnvPy E X Y Z) :
+    MkListOK E (pyV X Y Z) ∧ PairSound (leafEval E) PvLeafL Pfv3LeafC :=
+  ⟨mkListOK hE, pairSound_pyLists hE⟩
+
+/-- **Intersection and union with `python_version` lists on markers WITH `python_full_version` leaves, no unproved
+hypothesis**: string leaves with the four operators, `extra`, `python_version` with the seven operators and
+`in` / `not in` lists, `python_full_version` with the seven operators, `platform_release` — every fuel, every
+stack. -/
+theorem intersect_union_sound_lists_pfv {C : String → Prop}
+    (hC : ∀ u v, C u → C v → Generic.strIn u v = true ∨ Generic.strIn v u = true)
+    {B : List Version} (hpb : ∀ e ∈ B, PyBound e = true)
+    {ex : List String} (hX : E.extras = some ex) {X Y Z : Nat} (hE : EnvPy E X Y Z) {P : Nat} {Q : List Nat}
+    (hP : E.get? "platform_release" = some (Version.relText (P :: Q))) {a b r : M}
+    (ha : M.Good (FullLeafLP C B E) a) (hb : M.Good (FullLeafLP C B E) b) :
+    (mIntersect fuel stk a b = .ok r →
+      M.Good (FullLeafLP C B E) r ∧ M.validate E r = .ok (holds E a && holds E b)) ∧
+    (mUnion fuel stk a b = .ok r →
+      M.Good (FullLeafLP C B E) r ∧ M.validate E r = .ok (holds E a || holds E b)) := by
+  have S := leafSpec_fullLP hC hpb hX hE hP
+  have hev : ∀ l, FullLeafLP C B E l → ∃ b, l.validate E = .ok b := fun l hl => fullLeafLP_evaluable hpb hX hE hP hl
   exact ⟨fun h => by have := intersect_sound_partial S hev ha hb h; exact ⟨this.1, this.2.2⟩,
     fun h => by have := union_sound_partial S hev ha hb h; exact ⟨this.1, this.2.2⟩⟩
 
@@ -877,7 +906,7 @@ the extras (and, where used, a release-number `platform_release`):
 * `python_version` with `== != < <= > >= ~=` and a literal `X.Y`, and `in` / `not in` lists of `X.Y` tokens;
 * `python_full_version` with the seven operators and a literal `X.Y.Z` (`X` / `X.Y` are padded by the
   constructor to `X.0.0` / `X.Y.0` and land here), including the pairing with `python_version` for the seven
-  operators;
+  operators and for the lists;
 * `platform_release` with the seven operators and a release number of one to three components.
 
 **Outside the domain — the boundary, one witness each** (replayed on the real code; F = the property is false
@@ -898,8 +927,7 @@ there, U = unproved, no counterexample known, E = an exception instead of a mark
    exclusive `<`); `(python_version > "3.8").intersect(python_full_version == "3.9.0rc1")` is empty, both true.
 6. U pre-release / post / dev / local literals with three components, four-component literals on
    `python_full_version`, wildcard literals `== "3.8.*"` / `!= "3.8.*"` (the lists are their sugar), `===`.
-7. U `python_version` lists together with `python_full_version` leaves (pairing `PairSound … PvLeafL Pfv3LeafC`),
-   lists on `python_full_version` (known finding `pfv-list-two-component` for two-component tokens), `in` /
+7. U lists on `python_full_version` (known finding `pfv-list-two-component` for two-component tokens), `in` /
    `not in` lists on string variables as single leaves (inversion is proved: `lists_ready_to_invert`).
 8. U reversed operands on the version variables (`"3.8" <= python_version`), string values with white space,
    quotes, `|`, `,` or a leading `=` (known finding `generic-literal-whitespace`), `extra` with `in`/`not in`
